@@ -40,6 +40,13 @@ def shapes():
                                         R('T', x, y, body=(Lit('H', x), Lit('W', x, c=y))), R('U', x, y, body=(Lit('W', x, c=y), Lit('H', x)))], ['G'], ['G', 'H', 'T', 'U', 'W'])
   mk('reader_sorts_first', [R('Bz', x, body=(Lit('B', x),)), R('A2', Bin('+', x, N(1)), body=(Lit('Bz', x),)), R('T', x, y, body=(Lit('Bz', x), Lit('A2', y))), R('U', y, x, body=(Lit('A2', y), Lit('Bz', x)))], ['Bz', 'A2'], ['Bz', 'A2', 'T', 'U'])
   mk('through_injectible', [R('P', x, body=(Lit('B', x),)), R('J', x, y, body=(Lit('P', x), Eq(y, Bin('+', x, N(1))))), R('T', y, body=(Lit('J', x, y),))], ['P'], ['P', 'T'])
+  # beyond the small shapes: 12 columns (two-digit positions, read positionally and by name), a chain of four grounded predicates, values 0 / "" / negative
+  vs = [lang.V('v%d' % i) for i in range(12)]
+  wcols = [x, Bin('+', x, N(1)), N(0), lang.S(''), Bin('-', N(0), x), Bin('*', x, N(10)), lang.S('six'), Bin('+', x, N(7)), x, N(9), Bin('+', x, N(10)), Bin('-', x, N(11))]
+  mk('wide_columns', [R('P', *wcols, body=(Lit('B', x),)), R('T', vs[10], vs[11], vs[2], vs[3], body=(Lit('P', *vs),)), R('U', vs[10], vs[1], body=(Lit('P', col10=vs[10], col1=vs[1], col3=lang.S('')),))], ['P'], ['P', 'T', 'U'])
+  mk('chain_of_four', [R('P', x, body=(Lit('B', x),)), R('Q', Bin('+', x, N(10)), body=(Lit('P', x),)), R('W', Bin('+', x, N(100)), body=(Lit('Q', x),)), R('Z', x, named={'n': Aggr('Count', x)}, body=(Lit('W', x),), distinct=True),
+                       R('T', x, y, body=(Lit('Z', x, n=y), Lit('P', V('z')), Cmp('<', V('z'), x)))], ['P', 'Q', 'W', 'Z'], ['P', 'W', 'Z', 'T'])
+  mk('falsy_values', [R('P', Bin('-', x, x), lang.S(''), Bin('-', N(1), x), body=(Lit('B', x),)), R('T', y, z, body=(Lit('P', N(0), y, z),)), R('U', y, named={'n': Aggr('Sum', z), 'c': Aggr('Count', x)}, body=(Lit('P', x, y, z),), distinct=True)], ['P'], ['P', 'T', 'U'])
   return S
 
 
